@@ -12,11 +12,28 @@ func init() { subcommands["c11"] = c11 }
 // C11 [(name, raw); ...] [positions]
 func c11(t *Term) string {
 	var files []*text.File
-	fs := parsley.NewFileSet()
 	for _, ft := range t.Args[0].List() {
-		f := text.NewFile(string(ft.Args[0].Bytes()), ft.Args[1].Bytes())
-		files = append(files, f)
-		fs.AddFile(f)
+		files = append(files, text.NewFile(string(ft.Args[0].Bytes()), ft.Args[1].Bytes()))
+	}
+	var fs *parsley.FileSet
+	if n := len(files); n > 0 && n%2 == 1 {
+		// the variadic constructor with a caller-owned slice that has spare capacity, a second set built from the
+		// same slice, and one more file added to each: a file set must not share storage with its caller
+		list := make([]parsley.File, 0, n+2)
+		for _, f := range files[:n-1] {
+			list = append(list, f)
+		}
+		fs = parsley.NewFileSet(list...)
+		decoy := parsley.NewFileSet(list...)
+		fs.AddFile(files[n-1])
+		decoy.AddFile(text.NewFile("decoy", []byte("zz\nzz")))
+		list = append(list, text.NewFile("caller", []byte("c"))) // the caller goes on using its own slice
+		_ = list
+	} else {
+		fs = parsley.NewFileSet()
+		for _, f := range files {
+			fs.AddFile(f)
+		}
 	}
 	var layout, probes, perFile []string
 	for _, f := range files {
